@@ -198,8 +198,14 @@ def compare(ctx, x, m, what, check_noise=True):
 
 
 # ---- generators --------------------------------------------------------------------------
+_BIG = [False]      # set by w_big_ints: integer data that float64 cannot hold
+BIG_VALUES = np.array([2 ** 53 + 1, -(2 ** 53 + 1), 2 ** 53 + 3, 2 ** 60 + 1, -(2 ** 60 + 7), 2 ** 57 + 5, 3, -1])
+
+
 def rand_arr(rng, shape, dtype):
     if dtype == "int":
+        if _BIG[0]:
+            return BIG_VALUES[rng.integers(BIG_VALUES.size, size=shape)]
         return rng.integers(-9, 10, shape)
     a = np.round(rng.normal(0, 2, shape), 3)
     if dtype == "complex":
@@ -230,13 +236,16 @@ def make_operand(rng, kind, cls, n, dtype, noise):
     if kind == "obj1":
         return make_obj(rng, cls, 1, dtype, noise)
     if kind == "int":
-        v = int(rng.integers(-9, 10))
+        v = int(BIG_VALUES[int(rng.integers(BIG_VALUES.size))]) if _BIG[0] else int(rng.integers(-9, 10))
         return v, v
     if kind == "float":
         v = float(np.round(rng.normal(0, 2), 3))
         return v, v
     if kind == "complex":
         v = complex(np.round(rng.normal(0, 2), 3), np.round(rng.normal(0, 2), 3))
+        return v, v
+    if kind == "npscalar" and _BIG[0]:
+        v = np.int64(BIG_VALUES[int(rng.integers(BIG_VALUES.size))])
         return v, v
     if kind == "npscalar":
         v = [np.float64(np.round(rng.normal(0, 2), 3)), np.int64(rng.integers(-9, 10)), np.complex128(complex(1.5, -2.0))][int(rng.integers(3))]
@@ -415,6 +424,39 @@ def w_small_scope(ctx, rng, i):
 
 
 LEAF_LEN = [1, 2, 3, 7, 9, 13, 31, 64, 101, 4096, 100003]
+
+
+def w_big_ints(ctx, rng, i):
+    """integer records whose values float64 cannot hold (odd, |v| between 2**53 and 2**61): + and - (reflected and scalar forms,
+    every operand kind, every noise placement, length-1 broadcasting), slices and copies must stay exact — the model compares
+    integer totals with array_equal. Products are left out: they leave int64."""
+    cls = ["el", "opt1", "opt2"][i % 3]
+    n = [1, 2, 5, 64][(i // 3) % 4]
+    ctx.describe(cls=cls, n=n, dtype="int", big=True)
+    _BIG[0] = True
+    try:
+        for left_noise in (False, True):
+            x, m = make_obj(rng, cls, n, "int", left_noise)
+            combos = [(k, rn) for k in KINDS_OBJ for rn in (False, True)] + [(k, False) for k in ("int", "list", "tuple", "str", "ndarray", "npscalar", "list1")]
+            for kind, right_noise in combos:
+                for op in ("add", "radd", "sub", "rsub"):
+                    if kind in ("ndarray", "npscalar") + tuple(KINDS_OBJ) and op in ("radd", "rsub"):
+                        continue
+                    y, my = make_operand(rng, kind, cls, n, "int", right_noise)
+                    what = f"{cls}[{n},int>2^53,noise={left_noise}] {op} {kind}(noise={right_noise})"
+                    ctx.describe(cls=cls, n=n, left_noise=left_noise, kind=kind, right_noise=right_noise, op=op, operand=y if not isinstance(y, T.electrical_signal) else {"signal": y.signal, "noise": y.noise},
+                                 left={"signal": x.signal, "noise": x.noise})
+                    r, mm = run_binop(ctx, x, m, op, y, my, what)
+                    if r is not None and mm is not None:
+                        sl = make_slice(rng, SLICES[int(rng.integers(len(SLICES)))], r.len())
+                        run_slice(ctx, r, mm, sl, what + f" [{sl}]")
+                        with core.quiet():
+                            c = r.copy()
+                        compare(ctx, c, mm, what + " .copy()")
+                    ctx.sigs.add(repr(("big", cls, n, left_noise, kind, right_noise, op)))
+    finally:
+        _BIG[0] = False
+    ctx.case(("big", cls, n), sample={"cls": cls, "n": n, "values": "odd integers of magnitude 2^53..2^60"} if i < 2 else None)
 
 
 def w_trees(ctx, rng, i):
@@ -613,6 +655,7 @@ WORKLOADS = [
     Workload("small_scope", w_small_scope, len(SCOPE), len(SCOPE), exhaustive=True, budget=600),
     Workload("trees", w_trees, 12000, 400000, budget=120),
     Workload("ctor", w_ctor, 1000, 20000),
+    Workload("big_ints", w_big_ints, 48, 2400),
     Workload("ctor_rejects", w_ctor_rejects, 8, 80),
     Workload("devices_under_invariant", w_devices_under_invariant, 20, 400),
     Workload("repo_tests", lambda ctx, rng, i: core.run_repo_tests(ctx), 1, 1, budget=1800, tiers=("thorough",)),
